@@ -159,6 +159,9 @@ class Injector:
                           'report': ext['report'],
                           'in_code': f'{code.co_filename.rsplit("/site-packages/", 1)[-1]}:{code.co_name}',
                           'in_pydoctor': '/pydoctor/' in code.co_filename}
+            if p.get('bare'):
+                # real internal failures often carry no message at all (bare assert, KeyError(), MemoryError())
+                raise EXC_CLASSES[p['exc']]()
             raise EXC_CLASSES[p['exc']](f'injected fault ({p["exc"]})')
         return None
 
